@@ -75,7 +75,82 @@ func fanOut(r *hx.Rng) []hx.Zs {
 	return h
 }
 
+// writeFanOut: accepted and rejected remote writes (with and without acknowledgement request)
+// against a server feature with several subscribers; unbind / rebind in between.
+func writeFanOut(r *hx.Rng) []hx.Zs {
+	focus := int64(r.Range(1, 3))
+	pl := stack.GenPlanFocus(r, focus)
+	h := append([]hx.Zs{}, pl.Prefix...)
+	h = append(h, pl.ConnectAll()...)
+	ctr := map[int64]int64{}
+	next := func(p int64) int64 { ctr[p]++; return 100*p + ctr[p] }
+	var srv *stack.LFeat
+	var wfn int64
+	for i, f := range pl.Servers() {
+		for _, fn := range f.Fns {
+			if f.Type == focus && f.Writable[fn] {
+				s := pl.Servers()[i]
+				srv, wfn = &s, fn
+			}
+		}
+	}
+	if srv == nil {
+		return fanOut(r)
+	}
+	type cl struct {
+		p   int64
+		a   stack.FAddr
+		typ int64
+	}
+	var clients []cl
+	for _, p := range pl.Peers {
+		for _, f := range p.Feats {
+			if f.Ent[0] != 0 && f.Role == 0 && (f.Type == focus || f.Type == 4) {
+				c := cl{p.Ski, p.Addr(f, true), f.Type}
+				clients = append(clients, c)
+				if r.Chance(4, 5) {
+					h = append(h, stack.OpSubCall(p.Ski, next(p.Ski), r.Bool(), c.a, srv.Addr(true), srv.Type+1))
+				}
+			}
+		}
+	}
+	if len(clients) == 0 {
+		return fanOut(r)
+	}
+	bound := clients[r.Intn(len(clients))]
+	h = append(h, stack.OpBindCall(bound.p, next(bound.p), r.Bool(), bound.a, srv.Addr(true), srv.Type+1))
+	isBound := true
+	for k := 0; k < r.Range(4, 14); k++ {
+		switch r.Pick(8, 3, 2, 2, 2, 1) {
+		case 0: // write by the bound client, with or without ack request
+			h = append(h, stack.OpWrite(bound.p, next(bound.p), r.Bool(), bound.a, srv.Addr(r.Chance(2, 3)), wfn, int64(r.Range(1, 900))))
+		case 1: // write by another client
+			c := clients[r.Intn(len(clients))]
+			h = append(h, stack.OpWrite(c.p, next(c.p), r.Bool(), c.a, srv.Addr(true), wfn, int64(r.Range(1, 900))))
+		case 2: // write to another function of the feature
+			h = append(h, stack.OpWrite(bound.p, next(bound.p), r.Bool(), bound.a, srv.Addr(true), srv.Fns[r.Intn(len(srv.Fns))], int64(r.Range(1, 900))))
+		case 3:
+			h = append(h, stack.OpSetData(srv.Ent, srv.Id, wfn, int64(r.Range(1, 900))))
+		case 4:
+			if isBound {
+				h = append(h, stack.OpBindDelete(bound.p, next(bound.p), r.Bool(), bound.a, srv.Addr(true)))
+			} else {
+				h = append(h, stack.OpBindCall(bound.p, next(bound.p), r.Bool(), bound.a, srv.Addr(true), srv.Type+1))
+			}
+			isBound = !isBound
+		default:
+			c := clients[r.Intn(len(clients))]
+			h = append(h, stack.OpSubDelete(c.p, next(c.p), r.Bool(), c.a, srv.Addr(true)))
+		}
+	}
+	h = append(h, stack.OpReadData(srv.Ent, srv.Id, wfn))
+	return h
+}
+
 func gen(r *hx.Rng, tier string, i int) []hx.Zs {
+	if i%4 == 3 {
+		return writeFanOut(r)
+	}
 	if i%3 == 1 {
 		return fanOut(r)
 	}
